@@ -18,6 +18,7 @@ import (
 // format table
 
 type parserI interface {
+	Parse([]byte) error
 	Write([]byte) (int, error)
 	VerifFinalize() error
 	VerifDepths() []int
@@ -298,32 +299,36 @@ func opReuseEnc(args []string) string {
 	return last + "|" + hx(w2.Buf.Bytes()) + "|" + strings.Join(ds, "/")
 }
 
-// reuse-parse <fmt> <doc>;<doc>;...;<probe>     (docs = hex)
+// reuse-parse <fmt> <mode P|W> <doc>;<doc>;...;<probe>     (docs = hex)
 //
-//	one parser instance, Write(doc) per doc
+//	one parser instance; mode W: Write(doc) + end-of-input check per doc, mode P: p.Parse(doc)
 //	-> <events of probe on reused>|<events of probe on fresh>|<depths between docs>
 func opReuseParse(args []string) string {
 	f := Formats[args[0]]
-	docs := strings.Split(args[1], ";")
+	mode := args[1]
+	docs := strings.Split(args[2], ";")
+	feed := func(p parserI, d []byte) error {
+		if mode == "P" {
+			return p.Parse(d)
+		}
+		if _, err := p.Write(d); err != nil {
+			return err
+		}
+		return p.VerifFinalize()
+	}
 	rec := NewRecorder()
 	p := f.NewParser(rec)
 	var ds []string
 	for _, d := range docs {
 		rec.Reset()
-		if _, err := p.Write(mustHex(d)); err != nil {
-			return "err"
-		}
-		if err := p.VerifFinalize(); err != nil {
+		if err := feed(p, mustHex(d)); err != nil {
 			return "err"
 		}
 		ds = append(ds, Depths(p.VerifDepths())[2:])
 	}
 	rec2 := NewRecorder()
 	p2 := f.NewParser(rec2)
-	if _, err := p2.Write(mustHex(docs[len(docs)-1])); err != nil {
-		return "err"
-	}
-	if err := p2.VerifFinalize(); err != nil {
+	if err := feed(p2, mustHex(docs[len(docs)-1])); err != nil {
 		return "err"
 	}
 	return rec.String() + "|" + rec2.String() + "|" + strings.Join(ds, "/")
